@@ -5,22 +5,28 @@
 (*                                                                             *)
 (* The client writes its slot number into every cell of a block right after    *)
 (* the allocation and never writes anywhere else; Free clears the freed block  *)
-(* (or, with Scribble = "either", may leave the stale content).  What TLC establishes for Policy = "contract":   *)
+(* (or, with Scribble = "either", may leave the stale content).                *)
+(* What TLC establishes for Policy = "contract":                               *)
 (* for EVERY allocator whose answers satisfy Heap!AllocOK, under every         *)
 (* interleaving of allocations and frees over Sizes x Aligns, the live blocks  *)
 (* stay pairwise disjoint, aligned and inside the address space, every live    *)
 (* block reads back intact over its full extent (Check can only answer 0), and *)
 (* a step changes only cells of the block it allocates or frees.               *)
 (*                                                                             *)
-(* Negative controls (each must be refuted by TLC, see the cfg files):         *)
-(*   "noalign"    answers ignore the alignment argument        -> AllAligned   *)
-(*   "overlap"    answers ignore the live blocks               -> Intact       *)
-(*   "underalloc" only size-1 bytes are reserved for a block   -> Intact       *)
-(*   "header"     a bookkeeping word is written at p-1 without                 *)
-(*                being reserved                               -> Intact/Frame *)
-(* and a positive control: NoReuseStep ("a new block never lies on cells that  *)
-(* were used before") must be refuted, i.e. Free really makes addresses        *)
-(* available again in the contract.                                            *)
+(* Configurations:                                                             *)
+(*   HeapMC.cfg / HeapMC_thorough.cfg   the theorem above (Free clears cells)  *)
+(*   HeapMC_why.cfg      the same with Free leaving stale content at will, and *)
+(*                       the clause names of reports (XWhy) agreeing with XOK  *)
+(* Negative controls (each must be refuted by TLC):                            *)
+(*   HeapMC_neg_noalign    answers ignore the alignment argument -> AllAligned *)
+(*   HeapMC_neg_overlap    answers ignore the live blocks        -> Intact     *)
+(*   HeapMC_neg_underalloc only size-1 bytes are reserved        -> Intact     *)
+(*   HeapMC_neg_header     a bookkeeping word is written at p-1                *)
+(*                         without being reserved                -> Intact     *)
+(* Positive control (must be refuted as well):                                 *)
+(*   HeapMC_reuse          NoReuseStep, "a new block never lies on cells that  *)
+(*                         were used before": Free really makes addresses      *)
+(*                         available again in the contract.                    *)
 EXTENDS Heap
 
 CONSTANTS Top, Sizes, Aligns, Policy,
@@ -75,6 +81,12 @@ TypeOK ==
 Intact           == \A h \in LiveSet : BadCount(h) = 0
 CheckAnswersZero == \A h \in LiveSet : CheckOK(h, BadCount(h))
 CheckAllAnswers  == CheckAllOK([i \in 1..Len(LiveList) |-> <<LiveList[i], BadCount(LiveList[i])>>])
+
+\* the clause names used in reports (XWhy) say "ok" exactly when the contract allows the call / answer (XOK)
+WhyAgrees ==
+  /\ \A h \in Handles, s \in Sizes, al \in Aligns, p \in 0..Top : (AllocWhy(h, s, al, p) = "ok") <=> AllocOK(h, s, al, p)
+  /\ \A h \in Handles, p \in 0..Top : (FreeWhy(h, p) = "ok") <=> FreeOK(h, p)
+  /\ \A h \in Handles, bad \in 0..2 : (CheckWhy(h, bad) = "ok") <=> CheckOK(h, bad)
 
 \* a step touches only cells of the block it allocates or frees
 Touched == UNION ({Cells(live'[h]) : h \in LiveSet' \ LiveSet} \cup {Cells(live[h]) : h \in LiveSet \ LiveSet'})
